@@ -52,6 +52,12 @@ type Lemma struct {
 	Tier   string
 }
 
+type ghostFun struct {
+	Name string
+	Args []string
+	Res  string
+}
+
 type specParam struct {
 	Name string
 	Type string
@@ -70,6 +76,8 @@ type FuncContract struct {
 	Loops      map[int]*LoopContract
 	AllocBound *SpecExpr
 	Ghosts     []specParam
+	GhostFuns  []ghostFun
+	Scenarios  []string
 	Cases      []CaseDef
 	Modifies   []string
 	Props      []string
@@ -145,7 +153,7 @@ func loadEngine(repoDir string) (*Engine, error) {
 	if len(errs) > 0 {
 		return nil, fmt.Errorf("load errors: %s", strings.Join(errs, "; "))
 	}
-	prog, _ := ssautil.AllPackages(pkgs, ssa.InstantiateGenerics)
+	prog, _ := ssautil.AllPackages(pkgs, ssa.InstantiateGenerics|ssa.GlobalDebug)
 	prog.Build()
 	e := &Engine{repoDir: repoDir, pkgs: pkgs, prog: prog, ssaPkgs: map[string]*ssa.Package{}, byName: map[string]*ssa.Package{},
 		pkgOf: map[*types.Package]*packages.Package{}, fnByKey: map[string]*ssa.Function{}, raw: map[string]*RawContract{},
@@ -355,6 +363,16 @@ func (e *Engine) parseContractLines(p *packages.Package, file string, lines []st
 			cur.NoFrame = true
 		case "modifies":
 			cur.Modifies = append(cur.Modifies, strings.Fields(rest)...)
+		case "scenario":
+			cur.Scenarios = append(cur.Scenarios, strings.Fields(rest)...)
+		case "ghostfun":
+			// ghostfun NAME ARGTYPE... RESTYPE
+			fs := strings.Fields(rest)
+			if len(fs) < 2 {
+				fail("ghostfun NAME argtypes... restype", t)
+				continue
+			}
+			cur.GhostFuns = append(cur.GhostFuns, ghostFun{Name: fs[0], Args: fs[1 : len(fs)-1], Res: fs[len(fs)-1]})
 		case "ghost":
 			fs := strings.Fields(rest)
 			if len(fs) != 2 {
@@ -425,6 +443,12 @@ func (e *Engine) parseContractLines(p *packages.Package, file string, lines []st
 			switch fs[1] {
 			case "invariant":
 				props, r := splitProps(fs[2])
+				invCase := ""
+				if strings.HasPrefix(r, "case=") {
+					f2 := strings.SplitN(r, " ", 2)
+					invCase = strings.TrimPrefix(f2[0], "case=")
+					r = strings.TrimSpace(f2[1])
+				}
 				label, r := splitLabel(r)
 				se, err := parseSpec(r)
 				if err != nil {
@@ -434,7 +458,7 @@ func (e *Engine) parseContractLines(p *packages.Package, file string, lines []st
 				if label == "" {
 					label = fmt.Sprintf("inv%d", len(lc.Invariants)+1)
 				}
-				lc.Invariants = append(lc.Invariants, &Clause{Kind: "invariant", Label: label, Props: props, Modes: curModes, Expr: se, Line: t})
+				lc.Invariants = append(lc.Invariants, &Clause{Kind: "invariant", Case: invCase, Label: label, Props: props, Modes: curModes, Expr: se, Line: t})
 			case "decreases":
 				se, err := parseSpec(fs[2])
 				if err != nil {
